@@ -275,6 +275,41 @@ static inline void run_pair(Ctx &c, const char *family, uint64_t a, uint64_t b)
     if (lastn < 3) { lastn = ++seen[family]; c.rep.sample(family, J().h("a", a).h("b", b).done()); }
 }
 
+// call sites whose second operand is a compile-time constant (the compiler may specialise an inline function for it): every call form
+template <uint64_t K>
+static void literal_sites(Report &rep, uint64_t a)
+{
+    const El ea = mk(a);
+    uint64_t e = orc::mul(a, K), es = orc::add(a, K), ed = orc::sub(a, K);
+    auto bad = [&](const char *op, const char *form, uint64_t got, uint64_t exp) {
+        rep.violation(std::string("C01:") + op + ":literal-operand:" + form + ":wrong-value", J().str("op", op).str("form", form).h("a", a).h("literal", K).h("got_raw", got).h("expected", exp).done());
+    };
+    El r = mk(0x1234);
+    if (orc::canon(Goldilocks::mulScalar(ea, K).fe) != e) bad("mulScalar", "ret", Goldilocks::mulScalar(ea, K).fe, e);
+    Goldilocks::mulScalar(r, ea, K);
+    if (orc::canon(r.fe) != e) bad("mulScalar", "ref", r.fe, e);
+    El x = ea;
+    Goldilocks::mulScalar(x, x, K);
+    if (orc::canon(x.fe) != e) bad("mulScalar", "out=a", x.fe, e);
+    const El ek = mk(K);
+    x = ea; Goldilocks::mul(x, x, ek); if (orc::canon(x.fe) != e) bad("mul", "out=a", x.fe, e);
+    x = ea; Goldilocks::mul(x, ek, x); if (orc::canon(x.fe) != e) bad("mul", "out=b", x.fe, e);
+    x = ea; Goldilocks::add(x, x, ek); if (orc::canon(x.fe) != es) bad("add", "out=a", x.fe, es);
+    x = ea; Goldilocks::sub(x, x, ek); if (orc::canon(x.fe) != ed) bad("sub", "out=a", x.fe, ed);
+    if (orc::canon(Goldilocks::mul(ea, ek).fe) != e) bad("mul", "ret", Goldilocks::mul(ea, ek).fe, e);
+    if (orc::canon(Goldilocks::add(ea, ek).fe) != es) bad("add", "ret", Goldilocks::add(ea, ek).fe, es);
+    if (orc::canon(Goldilocks::sub(ea, ek).fe) != ed) bad("sub", "ret", Goldilocks::sub(ea, ek).fe, ed);
+    rep.evaluations += 10;
+}
+static void literal_family(Report &rep, uint64_t a)
+{
+    literal_sites<0>(rep, a); literal_sites<1>(rep, a); literal_sites<2>(rep, a); literal_sites<3>(rep, a); literal_sites<4>(rep, a);
+    literal_sites<5>(rep, a); literal_sites<7>(rep, a); literal_sites<8>(rep, a); literal_sites<16>(rep, a); literal_sites<255>(rep, a);
+    literal_sites<256>(rep, a); literal_sites<0xFFFFFFFFULL>(rep, a); literal_sites<0x100000000ULL>(rep, a); literal_sites<0xFFFFFFFF00000000ULL>(rep, a);
+    literal_sites<0xFFFFFFFF00000001ULL>(rep, a); literal_sites<0xFFFFFFFF00000002ULL>(rep, a); literal_sites<0xFFFFFFFFFFFFFFFFULL>(rep, a);
+    literal_sites<0x8000000000000000ULL>(rep, a);
+}
+
 static void run(const vf::Args &args, Report &rep)
 {
     Ctx c(rep);
@@ -292,6 +327,9 @@ static void run(const vf::Args &args, Report &rep)
     const std::vector<uint64_t> &F = g.fixed; // B0 + limb lattice
     uint64_t idx = 0;
     auto mine = [&](uint64_t i) { return (int)(i % args.nshards) == args.shard; };
+    for (size_t i = 0; i < F.size(); i++, idx++)
+        if (mine(idx)) { literal_family(rep, F[i]); rep.cls("family:literal_operand_call_sites"); }
+    for (int i = 0; i < 2000; i++) { literal_family(rep, g.pick(rng)); rep.cls("family:literal_operand_call_sites"); }
     for (size_t i = 0; i < F.size(); i++)
         for (size_t j = 0; j < F.size(); j++, idx++)
             if (mine(idx))
@@ -694,6 +732,16 @@ static void check_out(Report &rep, uint64_t raw, const char *family)
     uint64_t u = Goldilocks::toU64(e), u2 = 1;
     Goldilocks::toU64(u2, e);
     if (u != c || u2 != c) rep.violation("C15:toU64:not-canonical", J().str("family", family).h("raw", raw).h("got", u).h("got_ref", u2).h("expected", c).done());
+    {
+        // in-place forms: the result word IS the element's own word
+        El x = mk(raw);
+        Goldilocks::toU64(x.fe, x);
+        if (x.fe != c) rep.violation("C15:toU64:result-is-the-operand-word:not-canonical", J().str("family", family).h("raw", raw).h("got", x.fe).h("expected", c).done());
+        El y = mk(raw);
+        Goldilocks::toS64(*reinterpret_cast<int64_t *>(&y.fe), y);
+        if ((int64_t)y.fe != centred(c)) rep.violation("C15:toS64:result-is-the-operand-word:not-centred", J().str("family", family).h("raw", raw).i("got", (int64_t)y.fe).i("expected", centred(c)).done());
+        rep.cls("forms:result_is_the_operand_word");
+    }
     int64_t s = Goldilocks::toS64(e), s2 = 1;
     Goldilocks::toS64(s2, e);
     if (s != centred(c) || s2 != centred(c)) rep.violation("C15:toS64:not-centred", J().str("family", family).h("raw", raw).i("got", s).i("got_ref", s2).i("expected", centred(c)).done());
